@@ -1071,5 +1071,9 @@ pub fn run(cfg: RunCfg) {
         "pairs of quotes of one node: earlier age, gap (0, sub-second, seconds, up to ~1 h), counters of the later quote below/equal/above the earlier; non-trivial: later quote with less uptime or fewer payments",
         hist_strategy, check_hist
     );
+    // which two quotes get compared is the swarm driver's business: that part needs the driver
+    // simulator of vh-store and runs there as a child (built by harness/pre-C13.sh)
+    let exe = rep.cfg.root.join("harness/target/release/vh-store");
+    vh_core::run_child(&mut rep, &exe, "driver-side quote history (vh-store child)");
     rep.finish();
 }
